@@ -22,13 +22,18 @@ FLAGS_SAT = ["-fno-access-control", "-DOSMIUM_VERIF_INPUT_BUFFER_SIZE=64", "-DOS
 def build(ctx):
     vs = ctx.vsched_obj()
     return {"h07": ctx.build("h07", ["h07.cpp"], flags=FLAGS, opt="-O1", objects=[vs]),
-            "h07sat": ctx.build("h07sat", ["h07.cpp"], flags=FLAGS_SAT, opt="-O1", objects=[vs])}
+            "h07sat": ctx.build("h07sat", ["h07.cpp"], flags=FLAGS_SAT, opt="-O1", objects=[vs]),
+            "h07tsan": ctx.build_tsan_free("h07tsan", ["h07.cpp"], flags=FLAGS)}
 
 
 def run(ctx):
     exes = build(ctx)
     if getattr(ctx, "build_only", False):
         return
+    # free-running ThreadSanitizer companion (real threads): no unsynchronised sharing on the error/close paths either
+    import os
+    ctx.run_harness(exes["h07tsan"], ["--iterations", "1" if ctx.tier == "quick" else "20"],
+                    env={"TSAN_OPTIONS": "halt_on_error=0:exitcode=66:suppressions=" + os.path.join(os.path.dirname(os.path.dirname(ctx.checkdir)), "engine", "vsched", "tsan.supp")}, timeout=150)
     # slow consumer on a saturated pipeline (tiny parser buffers: parser blocked on the full osmdata queue, read thread on the full input queue)
     ctx.run_harness(exes["h07sat"], ["--saturate"])
     ctx.run_harness(exes["h07"], [])
